@@ -91,8 +91,12 @@ Definition assign (t : pview) (e : aexp) (m : mem) : mem :=
   if is_aliased e (par t) lo hi
   then store_list t idxs (map (eval e m) idxs) m
   else assign_loop t e idxs m.
-(* t op= e  is  t = noalias(t op e)  (ADEPT_DEFINE_OPERATOR, Array.h:568-577) *)
+(* t op= e  is  t = noalias(t) op e  (ADEPT_DEFINE_OPERATOR, Array.h:568-577, FixedArray.h; the same idiom as IndexedArray,
+   SpecialMatrix and where): only the target's own term is hidden from the alias test.  Until the repair of the compound
+   assignment it was t = noalias(t op e), kept here as [assign_op_old] *)
 Definition assign_op (o : binop) (t : pview) (e : aexp) (m : mem) : mem :=
+  assign t (EBin o (ENoAlias (ELeaf t)) e) m.
+Definition assign_op_old (o : binop) (t : pview) (e : aexp) (m : mem) : mem :=
   assign t (ENoAlias (EBin o (ELeaf t) e)) m.
 
 (* what the property demands: evaluate the whole right-hand side on the initial memory, then store *)
